@@ -5,10 +5,11 @@ import SafeC.DispatchQuery
 import SafeC.DispatchMem
 import SafeC.DispatchQuery2
 import SafeC.DispatchOs
+import SafeC.DispatchFld
 /-! chains the per-family dispatch tables (one `DispatchX.lean` per family) -/
 namespace SafeC.Driver
 
 def dispatch (fn : String) (c : Ctx) : Option (Prog Out) :=
-  dispatchCore fn c <|> dispatchInplace fn c <|> dispatchTok fn c <|> dispatchQuery fn c <|> dispatchMem fn c <|> dispatchQuery2 fn c <|> dispatchOs fn c
+  dispatchCore fn c <|> dispatchInplace fn c <|> dispatchTok fn c <|> dispatchQuery fn c <|> dispatchMem fn c <|> dispatchQuery2 fn c <|> dispatchOs fn c <|> dispatchFld fn c
 
 end SafeC.Driver
